@@ -101,12 +101,12 @@ func (c FrameCfg) tla() map[string]interface{} {
 
 // fragReader serves a byte slice in prescribed fragments and then reports end of stream.
 type fragReader struct {
-	data  []byte
-	pos   int
-	cuts  map[int]bool // positions a read may not cross
-	mode  string
-	rnd   *rand.Rand
-	reads int
+	data        []byte
+	pos         int
+	cuts        map[int]bool // positions a read may not cross
+	mode        string
+	rnd         *rand.Rand
+	reads       int
 	eofWithData bool // the last bytes are returned together with io.EOF (allowed by the io.Reader contract)
 }
 
